@@ -165,4 +165,4 @@ def lifecycle_sig(pid, kind, case, rt):
         return "%s:%stimeout-protection-lost:%s" % (pid, pfx, tag)
     if case.get("steps"):      # explicit schedule: name it by the gates it holds
         return "%s:%s%s:hold=%s:during=steps" % (pid, pfx, kind, "+".join(x[5:] for x in case["steps"] if x.startswith("hold:")))
-    return "%s:%s%s:hold=%s:during=%s" % (pid, pfx, kind, case.get("hold"), case.get("during"))
+    return "%s:%s%s:hold=%s:during=%s%s" % (pid, pfx, kind, case.get("hold"), case.get("during"), ":body" if case.get("body") else "")
